@@ -21,6 +21,10 @@ fn main() {
     let out = PathBuf::from(env::var("OUT_DIR").unwrap());
     let corpus = PathBuf::from(env::var("VGEN_CORPUS").unwrap_or_else(|_| "/verif/corpus".into()));
     let split = env::var("VGEN_SPLIT").map(|v| v == "1").unwrap_or(false);
+    let change_case = env::var("VGEN_CHANGE_CASE").map(|v| v != "0").unwrap_or(true);
+    let ignore_unused = env::var("VGEN_IGNORE_UNUSED").map(|v| v == "1").unwrap_or(false);
+    println!("cargo:rerun-if-env-changed=VGEN_CHANGE_CASE");
+    println!("cargo:rerun-if-env-changed=VGEN_IGNORE_UNUSED");
     println!("cargo:rerun-if-env-changed=VGEN_CORPUS");
     println!("cargo:rerun-if-env-changed=VGEN_SPLIT");
     println!("cargo:rerun-if-changed={}", corpus.display());
@@ -49,7 +53,7 @@ fn main() {
                 let target = out.join(format!("{name}.rs"));
                 let (p2, t2) = (p.clone(), target.clone());
                 let ok = guarded(&name, &mut failures, move || {
-                    let mut b = pilota_build::Builder::thrift().ignore_unused(false).split_generated_files(split);
+                    let mut b = pilota_build::Builder::thrift().ignore_unused(ignore_unused).change_case(change_case).split_generated_files(split);
                     if keep {
                         b = b.keep_unknown_fields(vec![p2.clone()]);
                     }
@@ -71,7 +75,8 @@ fn main() {
         let (p2, t2, inc) = (p.clone(), target.clone(), corpus.join("proto"));
         let ok = guarded(&name, &mut failures, move || {
             pilota_build::Builder::protobuf()
-                .ignore_unused(false)
+                .ignore_unused(ignore_unused)
+                .change_case(change_case)
                 .split_generated_files(split)
                 .include_dirs(vec![inc])
                 .compile_with_config(vec![pilota_build::IdlService::from_path(p2)], pilota_build::Output::File(t2));
